@@ -2,6 +2,7 @@ package props
 
 import (
 	"fmt"
+	"go/constant"
 	"go/token"
 	"go/types"
 	"strings"
@@ -17,7 +18,7 @@ func init() {
 		ID:      "C20",
 		Modules: []string{""},
 		Explanation: "Effect/ownership analysis of every method of StringSet and IntSet other than Insert/Delete, with receiver and argument treated as memory shared with the caller: (R20.1) the method writes neither operand, and a returned set (and its backing map) or slice is allocated by the call, so results never alias operands; " +
-			"(R20.2) in the heap adapter every index reported through setIndex is the index of the cell the value was just stored in (Swap reports both cells, Push reports the cell it appends to), always under the nil guard; (R20.3) Queue.Push/Pop/Fix/Remove reach their container/heap call on every path with the queue's own heap and the caller's arguments. " +
+			"(R20.2) in the heap adapter every index reported through setIndex is the index of the cell the value was just stored in (Swap reports both cells, Push reports the cell it appends to), always under the nil guard; (R20.3) Queue.Push/Pop/Fix/Remove reach their container/heap call on every path with the queue's own heap and the caller's arguments; (R20.4) Equal returns true only behind both inclusions: one containment loop under equal map sizes, or loops in both directions. " +
 			"Structural necessary conditions for all operation sequences; the set-algebra laws and the heap order are not decided.",
 		Run: runC20,
 	})
@@ -45,6 +46,9 @@ func runC20(c *Ctx) {
 			}
 			nMethods++
 			checkSetMethod(c, p, fn, spec[1])
+			if m.Name() == "Equal" {
+				checkSetEqual(c, p, fn, spec[1])
+			}
 		}
 	}
 	c.R.RequireMin("R20.1", "non-mutating set methods analysed", nMethods, 16)
@@ -342,4 +346,87 @@ func checkHeapAdapter(c *Ctx, p *core.Prog) {
 		}
 		c.R.Check(ok, "R20.3", "Queue."+name+" delegates to "+target+" on every path", p.Pos(fn.Pos()), why, why)
 	}
+}
+
+// checkSetEqual: R20.4. Equality of two sets needs both inclusions. A single containment loop (every element
+// of one operand is in the other) decides equality only where the two backing maps are known to have the same
+// number of elements; otherwise the method must test containment in both directions.
+func checkSetEqual(c *Ctx, p *core.Prog, fn *ssa.Function, typ string) {
+	key := typ + ".Equal returns true only when both inclusions hold"
+	// maps ranged over
+	ranged := map[string]bool{}
+	for _, b := range fn.Blocks {
+		for _, in := range b.Instrs {
+			if r, ok := in.(*ssa.Range); ok {
+				if _, isMap := r.X.Type().Underlying().(*types.Map); isMap {
+					ranged[core.AP(r.X)] = true
+				}
+			}
+		}
+	}
+	lenOfMap := func(v ssa.Value) (string, bool) {
+		call, ok := v.(*ssa.Call)
+		if !ok {
+			return "", false
+		}
+		bi, ok := call.Call.Value.(*ssa.Builtin)
+		if !ok || bi.Name() != "len" {
+			return "", false
+		}
+		if _, isMap := call.Call.Args[0].Type().Underlying().(*types.Map); !isMap {
+			return "", false
+		}
+		return core.AP(call.Call.Args[0]), true
+	}
+	sameLen := func(b *ssa.BasicBlock) bool {
+		for _, f := range core.FactsAt(b) {
+			cmp, ok := f.AsCmp()
+			if !ok || cmp.Op != token.EQL {
+				continue
+			}
+			x, ok1 := lenOfMap(cmp.X)
+			y, ok2 := lenOfMap(cmp.Y)
+			if ok1 && ok2 && x != y {
+				return true
+			}
+		}
+		return false
+	}
+	n := 0
+	bad := ""
+	for _, b := range fn.Blocks {
+		ret, ok := b.Instrs[len(b.Instrs)-1].(*ssa.Return)
+		if !ok || len(ret.Results) != 1 {
+			continue
+		}
+		// blocks from which the constant true is returned
+		var from []*ssa.BasicBlock
+		switch x := ret.Results[0].(type) {
+		case *ssa.Const:
+			if x.Value != nil && x.Value.Kind() == constant.Bool && constant.BoolVal(x.Value) {
+				from = append(from, b)
+			}
+		case *ssa.Phi:
+			for i, e := range x.Edges {
+				if k, ok := e.(*ssa.Const); ok && k.Value != nil && k.Value.Kind() == constant.Bool && constant.BoolVal(k.Value) {
+					from = append(from, x.Block().Preds[i])
+				}
+			}
+		}
+		for _, fb := range from {
+			n++
+			if len(ranged) == 0 {
+				continue // no containment loop on this shape (e.g. both operands nil): not this rule's business
+			}
+			if !sameLen(fb) && len(ranged) < 2 {
+				bad = "true is returned after a single containment loop over " + strings.Join(keysOf(ranged), ",") + " without the two maps being known to have the same size: a proper subset compares equal to its superset"
+			}
+		}
+	}
+	if n == 0 {
+		// the result is a computed value; nothing to decide structurally
+		c.R.Info("R20.4", key, p.Pos(fn.Pos()), "no constant true result")
+		return
+	}
+	c.R.Check(bad == "", "R20.4", key, p.Pos(fn.Pos()), fmt.Sprintf("%d true return(s): sizes compared equal before the containment loop, or containment tested in both directions", n), bad)
 }
